@@ -1,4 +1,5 @@
 """C17 — 2-D and ragged run-length arrays behave as one run-length array per row."""
+import vlib
 import warnings
 from vlib import show, parse, oracle, parse2, guarded
 from harness.c02 import enc_rsel
@@ -14,6 +15,10 @@ RULE = RULE2 + " || " + ("seeded random ragged arrays (1..4 rows of 1..5 values 
         "rows, row sums; non-trivial = at least two rows; distinct = distinct protocol line")
 UFS = ["add", "subtract", "multiply", "maximum", "less"]
 
+
+
+def translator_tie():
+    return vlib.translator_tie(["rle"])
 
 def run(R, tier, rng):
     from harness import fam_rl2d2
